@@ -12,6 +12,7 @@ import (
 	"runtime"
 	"sort"
 	"strings"
+	"sync/atomic"
 )
 
 // Kind of pending operation (used by Waitable.VrtReady).
@@ -47,7 +48,8 @@ type Thread struct {
 	lastVal any // value received by the last Select/Recv
 	lastOK  bool
 	Name    string
-	Local   any // harness-owned per-thread slot
+	Local   any    // harness-owned per-thread slot
+	live    *int32 // goroutines of this thread's execution that have not finished unwinding
 }
 
 func (t *Thread) ID() int { return t.id }
@@ -82,6 +84,9 @@ var (
 	cfg      *Config
 	staleCnt int32
 	stepCap  int
+	curLive  *int32
+	// LeakedExecs counts executions whose goroutines had not all unwound when the next one started.
+	LeakedExecs int
 )
 
 // Epoch is virtual time zero (ns since Unix epoch): 2026-01-01T00:00:00Z.
@@ -127,6 +132,7 @@ type Config struct {
 	StepCap   int                     // max scheduling steps per execution (horizon); default 50000
 	NoPreempt func(label string) bool // points whose label matches are not preemption candidates
 	Probe     func(name string, a ...any)
+	OnPoint   func() // observation hook run by the scheduler at every decision (all threads are parked)
 }
 
 //go:norace
@@ -283,6 +289,9 @@ func Choose(n int, label string) int {
 func decide() int32 {
 	for {
 		exec.Steps++
+		if cfg.OnPoint != nil {
+			cfg.OnPoint()
+		}
 		if exec.Steps > stepCap {
 			exec.Horizon = true
 			recordBlocked()
@@ -477,6 +486,8 @@ func spawn(fn func(), daemon bool, name string) *Thread {
 	if len(threads) > exec.MaxThread {
 		exec.MaxThread = len(threads)
 	}
+	t.live = curLive
+	atomic.AddInt32(t.live, 1)
 	go threadMain(t, fn)
 	return t
 }
@@ -560,6 +571,7 @@ func (t *Thread) Done() bool { return t.done }
 
 //go:norace
 func threadMain(t *Thread, fn func()) {
+	defer atomic.AddInt32(t.live, -1) // registered first, runs last: the goroutine has fully unwound
 	waitTurn(t)
 	cur = t
 	defer threadExit(t)
@@ -603,6 +615,7 @@ func RunOnce(c *Config, pfx []int, body func()) *Exec {
 	last = -1
 	cur = nil
 	active = true
+	curLive = new(int32)
 	setTurn(turnNone)
 	t0 := spawn(body, false, "main")
 	// first decision made by the controller
@@ -618,8 +631,15 @@ func RunOnce(c *Config, pfx []int, body func()) *Exec {
 	x := exec
 	gen++ // everything still parked is now stale and unwinds
 	setTurn(turnNone)
-	// give stale goroutines a bounded chance to unwind before the next execution starts
-	for i := 0; i < 200 && anyAlive(); i++ {
+	// Stale goroutines must have unwound completely (deferred unlocks included) before the next execution
+	// starts: a stale goroutine that reaches a shim operation while another execution is active would be taken
+	// for that execution's running thread. The bound is a liveness fallback only (a goroutine blocked for good
+	// in a real primitive), counted in LeakedExecs.
+	for i := 0; atomic.LoadInt32(curLive) > 0; i++ {
+		if i > 2000000 {
+			LeakedExecs++
+			break
+		}
 		runtime.Gosched()
 	}
 	threads = nil
